@@ -33,6 +33,8 @@ def corrections(darsia, rng, shape, workdir):
     out = []
     out.append(("type-float32", darsia.TypeCorrection(np.float32), False, False))
     out.append(("type-float64-neutral", darsia.TypeCorrection(np.float64), True, False))
+    out.append(("type-uint8", darsia.TypeCorrection(np.uint8), False, False))
+    out.append(("type-uint16", darsia.TypeCorrection(np.uint16), False, False))
     out.append(("rotation-zero", darsia.RotationCorrection(anchor=[H // 2, W // 2], rotations=[0.0]), True, False))
     out.append(("rotation-quarter", darsia.RotationCorrection(anchor=[0, 0], rotations=[np.pi / 2]), False, False))
     p0 = os.path.join(workdir, f"t0_{rng.randrange(10**9)}.npy")
@@ -98,6 +100,9 @@ def corrections(darsia, rng, shape, workdir):
     return out
 
 
+DPAT = [-1]
+
+
 def make_input(darsia, rng, kind, shape, dtype, layout="C"):
     """layout = memory layout of the caller's array (C, F, or a moved-axis view): the values are what counts"""
     H, W = shape
@@ -105,6 +110,15 @@ def make_input(darsia, rng, kind, shape, dtype, layout="C"):
 
     def data(s):
         a = rs.randint(0, 255, size=s).astype(np.uint8) if dtype == "uint8" else rs.rand(*s).astype(dtype)
+        # the values images carry, by turns: generic; signed (a difference image, within the range the unsigned pixel types
+        # accept); with saturated / black regions and ties (blocks of exact 0 and exact 1, equal neighbours)
+        DPAT[0] += 1
+        if dtype != "uint8" and DPAT[0] % 3 == 1:
+            a = (a - 0.5).astype(dtype)
+        elif DPAT[0] % 3 == 2:
+            flat = a.reshape(-1)
+            flat[::3] = 0
+            flat[1::7] = 255 if dtype == "uint8" else 1.0
         if layout == "F":
             a = np.asfortranarray(a)
         elif layout == "moved" and len(s) >= 3:
